@@ -23,22 +23,25 @@ type C01Script struct {
 }
 
 type c01run struct {
-	s         *Sess
-	o         *sim.Outcome
-	sc        *C01Script
-	m         *ref.Party
-	mRand     *sim.Rand
-	nMExp     int
-	restarted bool
-	recorded  [][]byte   // wires of an earlier AKE between the same long-term keys
-	recPubs   []*big.Int // DH public values of that earlier session
-	foreign   []*big.Int // DH values put on the wire by the adversary (mutated / degenerate)
-	fps       [3][]byte
-	lastSeen  [2]string
-	touched   bool // an attacker op touched an AKE message that was then delivered
-	sigSeen   bool // some party processed a Reveal-Signature / Signature message
-	complete  int
-	whoIs     [2]int
+	s          *Sess
+	o          *sim.Outcome
+	sc         *C01Script
+	m          *ref.Party
+	mRand      *sim.Rand
+	nMExp      int
+	restarted  bool
+	recorded   [][]byte   // wires of an earlier AKE between the same long-term keys
+	recPubs    []*big.Int // DH public values of that earlier session
+	foreign    []*big.Int // DH values put on the wire by the adversary (mutated / degenerate)
+	fps        [3][]byte
+	lastSeen   [2]string
+	touched    bool // an attacker op touched an AKE message that was then delivered
+	sigSeen    bool // some party processed a Reveal-Signature / Signature message
+	complete   int
+	whoIs      [2]int
+	mLast      int // the victim of the attacker's most recent exchange of its own
+	failedSeen [2]int
+	halfDone   [2]bool
 }
 
 func ssidOf(s *big.Int) []byte {
@@ -107,6 +110,7 @@ func (r *c01run) invariant(after string) {
 		c := w.P[p].C
 		if !c.IsEncrypted() {
 			r.lastSeen[p] = ""
+			r.failedSeen[p] = w.P[p].R.Failed
 			continue
 		}
 		ssid := c.GetSSID()
@@ -116,6 +120,13 @@ func (r *c01run) invariant(after string) {
 		}
 		_, hi := c.SecureSessionID()
 		state := fmt.Sprintf("%x|%x|%d", ssid, fp, hi)
+		failed := w.P[p].R.Failed
+		if state != r.lastSeen[p] {
+			// a session adopted in a call during which the randomness source failed is only half set up (the fresh D-H key
+			// pair that ends the exchange could not be drawn): what it sends need not be readable until the next exchange
+			r.halfDone[p] = failed > r.failedSeen[p]
+		}
+		r.failedSeen[p] = failed
 		if state == r.lastSeen[p] {
 			continue
 		}
@@ -218,6 +229,9 @@ func (r *c01run) mDegenerate(v int, op SOp) {
 	ver := uint16(r.sc.Cfg.V)
 	mtag := uint32(0x7000 + op.X)
 	vtag := r.s.W.P[v].C.GetOurInstanceTag()
+	if st := r.s.W.P[v].C.GetTheirInstanceTag(); ver == 3 && st >= 0x100 {
+		mtag = st // the victim is bound to a peer instance: only messages carrying that tag are looked at
+	}
 	wrap := func(typ byte, body []byte) []byte {
 		return ref.Armor(append(ref.PutHeader(ver, typ, mtag, vtag), body...))
 	}
@@ -455,6 +469,9 @@ func runC01(sc *C01Script) *sim.Outcome {
 			}
 		case "start":
 			w.AgeClock(who, 3*60e9)
+			if op.I&1 == 1 {
+				w.AgeClock(1-who, 3*60e9) // (the peer, too, last saw key-exchange activity more than a minute ago)
+			}
 			w.Query(who)
 		case "dl":
 			deliver(who, op.I, "a delivery")
@@ -462,6 +479,12 @@ func runC01(sc *C01Script) *sim.Outcome {
 			s.Exec(op)
 		case "drop":
 			s.Exec(op)
+		case "fault":
+			// one read of this party's randomness source, op.X reads from now, fails (an error path taken half way through
+			// whatever happens next: an honest exchange, the attacker's exchange, a refresh)
+			s.Exec(op)
+			r.touched = true
+			o.Class("randomness-fault")
 		case "mut":
 			if len(w.Q[who]) == 0 {
 				continue
@@ -515,6 +538,13 @@ func runC01(sc *C01Script) *sim.Outcome {
 			claim := op.X % 3
 			r.m.Advertise = s.Obs.Long[claim]
 			r.m.State, r.m.TheirTag = ref.StNone, 0
+			r.mLast = who
+			if st := w.P[who].C.GetTheirInstanceTag(); sc.Cfg.V == 3 && st >= 0x100 && op.L&2 == 0 {
+				// a victim that already knows its peer's instance listens to nobody else: the attacker writes that
+				// instance's tag into its own messages (tags travel in the clear)
+				r.m.OurTag = st
+				o.Class("attacker-uses-the-peer-instance-tag")
+			}
 			steps := 10
 			if op.K == "mpartial" {
 				steps = 1 + op.L%2
@@ -549,10 +579,15 @@ func runC01(sc *C01Script) *sim.Outcome {
 	if o.Violation != "" {
 		return o
 	}
-	// probe: parties that completed the same exchange can read each other over a clean channel
+	// probe: parties that completed the same exchange can read each other over a clean channel (and with working
+	// randomness sources: a fault still armed would make an honest rotation fail)
+	w.P[0].R.Heal()
+	w.P[1].R.Heal()
 	a, b := w.P[0].C, w.P[1].C
 	w.Q[0], w.Q[1] = nil, nil
-	if a.IsEncrypted() && b.IsEncrypted() && a.GetSSID() == b.GetSSID() {
+	if a.IsEncrypted() && b.IsEncrypted() && a.GetSSID() == b.GetSSID() && (r.halfDone[0] || r.halfDone[1]) {
+		o.Class("session-adopted-while-the-source-failed")
+	} else if a.IsEncrypted() && b.IsEncrypted() && a.GetSSID() == b.GetSSID() {
 		for k := 0; k < 2; k++ {
 			d := (k + len(sc.Ops)) & 1 // either side may be the first to speak in the new session
 			t := s.Text(d, 8, 0)
@@ -570,6 +605,34 @@ func runC01(sc *C01Script) *sim.Outcome {
 		}
 		o.Class("completed-under-attack")
 	}
+	// what an encrypted conversation sends is readable for the party whose key and session it reports, and for nobody
+	// else: the attacker, who completed exchanges of its own, tries to read one text of each side
+	for p := 0; p < 2 && o.Violation == ""; p++ {
+		c := w.P[p].C
+		if !c.IsEncrypted() {
+			continue
+		}
+		w.Q[0], w.Q[1] = nil, nil
+		t := s.Text(p, 8, 0)
+		s.Send(p, t)
+		var got []byte
+		for _, wr := range w.Q[p] {
+			if pl, _, err := r.m.Receive(wr.Data); err == nil && pl != nil {
+				got = pl
+			}
+		}
+		w.Q[p] = nil
+		mReads := bytes.Equal(got, t)
+		if r.whoIs[p] == 2 && r.mLast == p && !r.halfDone[p] && r.m.Encrypted && r.m.SSID == c.GetSSID() && !mReads {
+			return o.Fail("C01/probe", "%s reports the session %x and the key of M, M completed that exchange, and M cannot read what %s sends", w.P[p].Name, c.GetSSID(), w.P[p].Name)
+		}
+		if r.whoIs[p] != 2 && mReads {
+			return o.Fail("C01/secret-shared-with-someone-else", "%s reports SSID %x and the key of %s, yet the attacker M reads what %s sends with the keys of its own exchange", w.P[p].Name, c.GetSSID(), []string{"A", "B", "M"}[r.whoIs[p]], w.P[p].Name)
+		}
+		if mReads {
+			o.Class("attacker-session-read-by-attacker")
+		}
+	}
 	o.NonTrivial = r.touched && r.sigSeen || r.restarted && a.IsEncrypted() && b.IsEncrypted()
 	return o
 }
@@ -579,12 +642,13 @@ func init() {
 	reg("C01degenerate", runC01)
 	reg("C01stray", runC01)
 	reg("C01restart", runC01)
+	reg("C01faults", runC01)
 	reg("C01sweep", runC01Sweep)
 }
 
 func TestProp_C01_Attack(t *testing.T) {
 	defer sim.MarkCompleted("C01attack", false)
-	kinds := []string{"start", "start", "restart", "talk", "dl", "dl", "dl", "dl", "dl", "dup", "drop", "mut", "mut", "mut", "mut", "injrec", "mrun", "mrun", "mpartial", "mdegen", "mdegen", "flush", "flush"}
+	kinds := []string{"start", "start", "restart", "talk", "dl", "dl", "dl", "dl", "dl", "dup", "drop", "mut", "mut", "mut", "mut", "injrec", "mrun", "mrun", "mpartial", "mdegen", "mdegen", "flush", "flush", "fault"}
 	rapid.Check(t, func(rt *rapid.T) {
 		sc := &C01Script{Cfg: genSessCfg(rt), KeyM: rapid.IntRange(0, 5).Draw(rt, "km")}
 		sc.Cfg.FragA, sc.Cfg.FragB = 0, 0
@@ -606,6 +670,9 @@ func TestProp_C01_Attack(t *testing.T) {
 				op.F = rapid.IntRange(0, 255).Draw(rt, "val")
 			case "injrec":
 				op.I = rapid.IntRange(0, 8).Draw(rt, "i")
+			case "fault":
+				op.X = rapid.IntRange(0, 12).Draw(rt, "ahead")
+				op.I = rapid.IntRange(0, 1).Draw(rt, "mode")
 			case "mdegen":
 				op.X = rapid.IntRange(0, 3).Draw(rt, "val")
 				op.F = rapid.IntRange(0, 1).Draw(rt, "role")
@@ -613,7 +680,7 @@ func TestProp_C01_Attack(t *testing.T) {
 			case "mrun", "mpartial":
 				op.X = rapid.IntRange(0, 2).Draw(rt, "claim")
 				op.F = rapid.IntRange(0, 1).Draw(rt, "role")
-				op.L = rapid.IntRange(0, 1).Draw(rt, "steps")
+				op.L = rapid.IntRange(0, 3).Draw(rt, "steps")
 			}
 			sc.Ops = append(sc.Ops, op)
 		}
@@ -802,6 +869,40 @@ func TestProp_C01_Restart(t *testing.T) {
 		}
 	}
 	sim.MarkCompleted("C01restart", true)
+}
+
+// TestProp_C01_Faults: inside a running session between A and B, one read of the victim's randomness source fails
+// (read k from now, as an error or a short read) while the attacker, or the honest peer, runs a further key exchange
+// with the victim; what the victim reports afterwards must still be the session its keys belong to.
+func TestProp_C01_Faults(t *testing.T) {
+	si, sn := sim.Shard()
+	idx := 0
+	for _, v := range []int{3, 2} {
+		for vic := 0; vic < 2; vic++ {
+			for role := 0; role < 2; role++ {
+				for peer := 0; peer < 2; peer++ { // 0: the attacker with its own key, 1: the honest peer refreshes
+					for mode := 0; mode < 2; mode++ {
+						for k := 0; k < 12; k++ {
+							idx++
+							if idx%sn != si {
+								continue
+							}
+							sc := &C01Script{Cfg: SessCfg{V: v, SeedA: 760, SeedB: 861, KeyA: 0, KeyB: 3}, KeyM: 5}
+							sc.Ops = append(sc.Ops, SOp{K: "start", W: role}, SOp{K: "flush"}, SOp{K: "talk", W: vic, I: 1}, SOp{K: "fault", W: vic, X: k, I: mode})
+							if peer == 0 {
+								sc.Ops = append(sc.Ops, SOp{K: "mrun", W: vic, X: 2, F: role})
+							} else {
+								sc.Ops = append(sc.Ops, SOp{K: "start", W: (vic + role) & 1, I: 1}, SOp{K: "flush"})
+							}
+							sc.Ops = append(sc.Ops, SOp{K: "flush"})
+							sim.Judge(t, "C01faults", sc)
+						}
+					}
+				}
+			}
+		}
+	}
+	sim.MarkCompleted("C01faults", true)
 }
 
 func TestProp_C01_Degenerate(t *testing.T) {
